@@ -108,6 +108,15 @@ CondExprs == {
 }
 SomeConds == {Cmp, Infix("&&", Cmp, Not)}
 
+\* values that START with a parenthesised group and go on with two or three more operators / juxtapositions
+\* (infix chains are left-nested: the group is the left operand of the innermost infix)
+ChainReturns ==
+  {Infix("&&", Infix("&&", Group(Infix("||", idA, idB)), idC), idV),                                  \* (a || b) && c && d
+   Infix("||", Infix("&&", Infix("&&", Group(idA), idB), idC), idV),                                  \* (a) && b && c || d
+   Cat(Cat(Group(idA), Str("-", "\"-\""), FALSE), idB, FALSE),                                       \* (a) "-" b
+   Cat(Cat(Cat(Group(Cat(sA, idA, TRUE)), sB, TRUE), idB, FALSE), sA, TRUE),
+   Infix("==", Cat(Cat(Group(idA), sA, FALSE), idB, TRUE), sB)}
+
 (***************************************************************************)
 (* Statements.  St wraps the common shape                                  *)
 (*   <comment> NL  kw ... ; <comment>                                      *)
@@ -254,11 +263,13 @@ Stmts ==
   \cup {Goto("end"), Label("end:", "end:")}
   \cup {Return(NoneObj, "none"), Return(Id("lookup"), "paren"), Return(Id("lookup"), "plain"), Return(Id("deliver_stale"), "paren")}
   \cup {Include("mod", "\"mod\""), Include("m d", "\"m%20d\"")}
+  \cup {Return(e, "paren") : e \in ChainReturns}          \* (state subs too: return_statement_parenthesis off unwraps them)
   \cup {Block(b) : b \in SimpleBodies}
   \cup IfStmts \cup SwitchStmts
 
 \* return inside a subroutine that returns a value
-FnReturns == {Return(Infix("&&", Group(idA), idB), "paren"), Return(Group(Group(Cmp)), "paren"), Return(bT, "plain"), Return(Cmp, "plain"), Return(Cmp, "paren"), Return(Cat(sA, idB, TRUE), "plain"),
+FnReturns == {Return(e, "paren") : e \in ChainReturns} \cup
+             {Return(Infix("&&", Group(idA), idB), "paren"), Return(Group(Group(Cmp)), "paren"), Return(bT, "plain"), Return(Cmp, "plain"), Return(Cmp, "paren"), Return(Cat(sA, idB, TRUE), "plain"),
               Return(Not, "plain"), Return(FCallX("std.itoa", <<i10>>), "plain")}
 
 (***************************************************************************)
@@ -382,7 +393,8 @@ MultiDocs(k) ==
   IN {[fam |-> "multi", focus |-> "vcl", ds |-> [i \in 1..k |-> IF bl[i] THEN Blank(pool[p[i]]) ELSE pool[p[i]]]] :
         p \in Perms(Len(pool), k), bl \in [1..k -> BOOLEAN]}
 
-GroupPool == <<SetA, LogA, SetS(idC, "=", Cat(sA, idB, TRUE)), Esi>>
+\* (the if carries a block with its own empty-line group: what is squeezed inside it must not change the padding outside)
+GroupPool == <<SetA, LogA, SetS(idC, "=", Cat(sA, idB, TRUE)), Esi, If(Cmp, <<SetA, Blank(LogA)>>, <<>>, NoneObj)>>
 GroupDocs(k) ==
   {[fam |-> "group", focus |-> "block",
     ds |-> <<Sub("vcl_recv", <<>>, "", [i \in 1..k |-> IF bl[i] THEN Blank(GroupPool[p[i]]) ELSE GroupPool[p[i]]])>>] :
@@ -450,6 +462,40 @@ FewDocs ==
           d \in {Acl("a1", <<Cidr(FALSE, "10.0.0.0", "8"), Cidr(TRUE, "10.1.0.0", "16")>>), Backend("b1", <<pTime, Probe(<<pThr>>), pHost>>),
                   Table("t1", "STRING", <<TProp(sA, sB, TRUE)>>), Empty("penaltybox", "p1"),
                   Sub("f1", <<Param("STRING", "var.p")>>, "BOOL", <<Return(Cmp, "paren")>>)}}
+
+(***************************************************************************)
+(* Expressions whose printing has special cases (comparison operators are  *)
+(* glued to their operands, prefix operators, groups, chains) in EVERY     *)
+(* position that prints an expression - each position is a different call  *)
+(* site of the chunker (notes/LESSONS.md 10).                              *)
+(***************************************************************************)
+CmpOps == {"==", "!=", "~", "!~", "<", ">", "<=", ">="}
+\* `return (x) ...;` is read as the parenthesised form: a value that starts with a group can only be written inside parentheses
+RECURSIVE StartsG(_)
+StartsG(a) == a.k = "group" \/ (a.k = "infix" /\ StartsG(a.l)) \/ (a.k = "postfix" /\ StartsG(a.left))
+RetForms(e) == IF StartsG(e.a) THEN {"paren"} ELSE {"paren", "plain"}
+TrickyExprs ==
+  {Infix(op, idA, Prefix("!", Group(Infix("~", idB, sRe)))) : op \in CmpOps}                        \* a != !(b ~ "x")
+  \cup {Infix(op, Id("var.i"), Prefix("-", Group(i10))) : op \in {"==", "<", ">="}}               \* i < -(10)
+  \cup {Infix("&&", Infix("==", idA, Prefix("!", Group(idB))), idC),                              \* a == !(b) && c
+        Infix("||", idC, Infix("!=", idA, Prefix("!", Prefix("!", Group(idB))))),
+        Infix("==", idA, Group(idB)), Infix("~", Group(idA), Group(sRe)),
+        Infix("==", Prefix("!", Group(idA)), Prefix("!", idB)),
+        Infix("==", idA, Prefix("-", i10)), Infix("!=", idA, Prefix("!", idB))}
+  \cup ChainReturns
+PosStmts(e) ==
+  {SetS(idA, "=", e), AddS(idC, "=", e), Declare("var.b", "BOOL", e), ValS("log", "log", e), ValS("synthetic", "synthetic", e),
+   ErrorS(Int("601", "601"), e), Call("helper", <<e, idB>>, "parens"), Call("helper", <<idB, e>>, "parens"), FCall("std.collect", <<idA, e>>),
+   SetS(idA, "=", FCallX("std.itoa", <<e>>)), SetS(idA, "=", IfX(e, sA, sB)), SetS(idA, "=", IfX(Cmp, e, sB)),
+   If(e, <<Esi>>, <<>>, NoneObj), If(Cmp, <<Esi>>, <<Elif(W("elsif"), "elsif", e, <<LogA>>)>>, NoneObj),
+   Switch(FCallX("std.itoa", <<e>>), <<Case(TestEq(sA), <<Break>>, FALSE)>>)}
+  \cup {Return(e, form) : form \in RetForms(e)}
+PosDocs ==
+  UNION {{[fam |-> "pos", focus |-> x.a.k, ds |-> <<Sub("vcl_recv", <<>>, "", <<x>>)>>] : x \in PosStmts(e)} : e \in TrickyExprs}
+  \cup UNION {{[fam |-> "pos", focus |-> "return", ds |-> <<Sub("f1", <<Param("STRING", "var.p")>>, "BOOL", <<Return(e, form)>>)>>] :
+                 form \in RetForms(e)} : e \in TrickyExprs}
+  \cup {[fam |-> "pos", focus |-> "backend", ds |-> <<Backend("b1", <<Prop("bprop", "ssl", e), Probe(<<Prop("bprop", "dummy", e)>>)>>)>>] : e \in TrickyExprs}
+  \cup {[fam |-> "pos", focus |-> "table", ds |-> <<Director("d1", "random", <<Prop("dprop", "quorum", e)>>)>>] : e \in TrickyExprs}
 
 (***************************************************************************)
 (* Width sweep: a few statement shapes whose last operand is a literal of  *)
